@@ -50,10 +50,11 @@ def program(draw, nmax=8, kinds=('call', 'await', 'map', 'amap', 'wait'), immedi
         if k == 'call':
             return {'at': t, 'op': 'call', 'x': fresh(1)[0]}
         if k == 'wait':
-            return {'at': t, 'op': 'wait', 'cancel': draw(st.booleans()) if forced_flush else False}
+            return {'at': t, 'op': 'wait', 'cancel': draw(st.booleans()) if forced_flush else False,
+                    'inline': draw(st.integers(0, 3)) == 0}
         if k == 'await':
             return {'at': t, 'op': 'await', 'x': fresh(1)[0], 'delay': draw(st.sampled_from([0, U, T / 2, 2 * T])),
-                    'fail': draw(st.integers(0, 4)) == 0}
+                    'fail': draw(st.integers(0, 4)) == 0, 'fail_kind': draw(st.sampled_from(['exc', 'exc', 'cancel', 'base']))}
         n = draw(st.integers(0, 3))
         xs = fresh(n)
         if k == 'map':
@@ -65,7 +66,7 @@ def program(draw, nmax=8, kinds=('call', 'await', 'map', 'amap', 'wait'), immedi
                 delay = draw(st.sampled_from([0, 0, U, T / 2]))
             return {'at': t, 'op': 'map', 'kind': kind, 'xs': xs, 'fail_at': fail_at, 'delay': delay}
         return {'at': t, 'op': 'amap', 'xs': xs, 'fail_at': draw(st.sampled_from([None, None] + list(range(n + 1)))),
-                'delay': draw(st.sampled_from([0, 0, U, T / 2]))}
+                'delay': draw(st.sampled_from([0, 0, U, T / 2])), 'fail_kind': draw(st.sampled_from(['exc', 'exc', 'cancel', 'base']))}
 
     prog = []
     t = 0.0
@@ -146,6 +147,8 @@ def valid(case):
                 if len(set(o['xs'])) != len(o['xs']):
                     return False
             if o.get('delay', 0) < 0 or not (0 <= o.get('iters', 0) <= 8):
+                return False
+            if o.get('fail_kind', 'exc') not in ('exc', 'cancel', 'base'):
                 return False
             return True
         if not all(ok_op(o) for o in case['prog']):
@@ -291,6 +294,8 @@ def judge_debounce(case, hist):
             out.append(V('overlap', f"call {c['i']} started at t={c['start']} while another call was running", 'overlap'))
         if not c['args']:
             out.append(V('empty-call', f"call {c['i']} at t={c['start']} received an empty set", 'empty-call'))
+    if case.get('flush'):
+        return out, 0        # with forced flushes only "never twice at once" and "never an empty set" are judged
     arrivals = sorted(s['t'] for s in hist['subs'])
     arr_args = {}
     for s in hist['subs']:
